@@ -445,6 +445,16 @@ def compare(call, rec, lifetime_faulty, world_faulty):
             continue
         na_a = [v in ("NaN", "NaT", None) for v in a["values"]]
         na_b = [v in ("NaN", "NaT", None) for v in b["values"]]
+        colname = (h or {}).get("col") or "x"
+        has_inf = any(isinstance(v, float) and math.isinf(v) for v in call["cols"].get(colname, {}).get("values", []))
+        if fn == "quantile" and has_inf and len(a["values"]) == len(b["values"]) and all(
+                close(x, y, dtype in NARROW) or (x == "NaN" and y in ("inf", "-inf"))
+                for x, y in zip(a["values"], b["values"])):
+            out.append(("C08.inf|quantile|interpolation-between-infinities",
+                        f"quantile({dtype}, {kw}) on a group containing +-inf: NumPy interpolates inf-inf "
+                        f"to NaN, Numba's np.quantile returns the infinity: Python {a['values']} vs Numba "
+                        f"{b['values']}; x={call['cols'][colname]['values']} g={call['g']}"))
+            continue
         if na_a != na_b:
             out.append((f"C08.na|{where}", f"{fn}({dtype}, {kw}) missing positions differ: Python "
                         f"{a['values']} vs Numba {b['values']}; x={call['cols'][(h or {}).get('col') or 'x']['values']} "
